@@ -44,6 +44,16 @@ var c14Graphs = []c14Graph{
 	{"main->a2,a (loop)", "M[{% for i in (1..2) %}INC(a2.inc){% endfor %}INC(a.inc)]", map[string]string{"a.inc": "A(BODY)", "a2.inc": "A2(BODY)"}},
 }
 
+// c14EdgeGraph: the included file begins and ends with trim-marked objects and the includer has whitespace
+// around the include tag. The file's standalone rendering is constant ("x<which>y"), so the expectation is
+// written down directly: textual inlining would (wrongly, for this property) let the file's markers trim the
+// includer's whitespace.
+const c14EdgeName = "main->a (file edges carry trim markers, includer has whitespace around the tag)"
+
+func init() {
+	c14Graphs = append(c14Graphs, c14Graph{c14EdgeName, "M[ \t\n INC(a.inc) \n ]", map[string]string{"a.inc": `{{- "x" }}EDGE{{ "y" -}}`}})
+}
+
 var c14Bodies = []struct {
 	name, src string
 	fails     bool
@@ -138,6 +148,9 @@ func c14Families(tier string) []explore.Family {
 		if noPath && mi != 0 {
 			return
 		}
+		if g.name == c14EdgeName && bi != 0 {
+			return // this graph's file content is fixed
+		}
 		// lay out the configuration in the worker's private directory
 		dir := filepath.Join(c14.root, fmt.Sprintf("m%d", mi))
 		os.RemoveAll(dir)
@@ -167,6 +180,9 @@ func c14Families(tier string) []explore.Family {
 			b := g.files[f]
 			if b == "" {
 				b = "UNUSED"
+			}
+			if g.name == c14EdgeName && f == "a.inc" {
+				return strings.ReplaceAll(b, "EDGE", "<"+which+">")
 			}
 			return strings.ReplaceAll(b, "BODY", body.src) + "<" + which + ">"
 		}
@@ -231,6 +247,13 @@ func c14Families(tier string) []explore.Family {
 		// reference: inline every include
 		inlined, allResolve := c14Expand(g.main, 0, new(int), map[string]any{}, func(f string) (string, bool) {
 			c, ok := resolved[f]
+			if ok && g.name == c14EdgeName {
+				which := "disk"
+				if strings.Contains(c, "<cache>") {
+					which = "cache"
+				}
+				return "x<" + which + ">y", true
+			}
 			return c, ok
 		})
 		expectErr := !allResolve || argf.fails
@@ -282,7 +305,7 @@ func init() {
 	explore.Register(&explore.Prop{
 		ID:    "C14",
 		Level: "fault_enumeration",
-		Rule: "three files (a, a2, sub/b relative to the main template) each independently on disk / in the cache only / in both with different content / missing (4^3 = 64 configurations; 'missing' is the injected fault) x 6 acyclic include graphs x 8 argument forms (literal, variable, variable assigned earlier, filtered expression, map property, three non-strings) x 4 included bodies (reads variables, assigns, failing filter, syntax error) x main template parsed at 2 (quick) / 3 directory depths and without a path; " +
+		Rule: "three files (a, a2, sub/b relative to the main template) each independently on disk / in the cache only / in both with different content / missing (4^3 = 64 configurations; 'missing' is the injected fault) x 7 acyclic include graphs (one whose file edges carry trim markers) x 8 argument forms (literal, variable, variable assigned earlier, filtered expression, map property, three non-strings) x 4 included bodies (reads variables, assigns, failing filter, syntax error) x main template parsed at 2 (quick) / 3 directory depths and without a path; " +
 			"oracle = reference inliner (textual substitution of resolved content) rendered by the engine itself, or a SourceError with os.IsNotExist cause; class = (graph, argument form, outcome kind)",
 		Assumptions: []string{
 			"nested includes are only generated between files of the main template's own directory, where 'relative to the includer' and 'relative to the main template' coincide (the statement does not separate them)",
